@@ -114,9 +114,10 @@ class FileResolver:
             ]
 
             # Collect gitignore specs for this directory (including ancestors)
-            gitignore_specs: list[pathspec.PathSpec] = []
+            gitignore_specs: list[tuple[Path, pathspec.PathSpec]] = []
             if self._config.respect_gitignore:
                 gitignore_specs = self._get_gitignore_chain(current, root)
+            resolved_current = current.resolve()
 
             # Yield files matching include patterns (applying gitignore + tool ignore)
             for filename in filenames:
@@ -125,7 +126,7 @@ class FileResolver:
                     continue
                 if self._exceeds_max_size(filepath):
                     continue
-                if any(spec.match_file(filename) for spec in gitignore_specs):
+                if self._gitignored(resolved_current / filename, False, gitignore_specs):
                     continue
                 if tool_ignore and tool_ignore.match_file(filename):
                     continue
@@ -150,9 +151,9 @@ class FileResolver:
 
         if self._config.respect_gitignore:
             root = walk_root if walk_root is not None else current_dir
-            for spec in self._get_gitignore_chain(current_dir, root):
-                if spec.match_file(dir_with_slash):
-                    return True
+            chain = self._get_gitignore_chain(current_dir, root)
+            if self._gitignored(current_dir.resolve() / dirname, True, chain):
+                return True
 
         if tool_ignore and tool_ignore.match_file(dir_with_slash):
             return True
@@ -193,9 +194,26 @@ class FileResolver:
             self._gitignore_cache[directory] = load_gitignore(directory)
         return self._gitignore_cache[directory]
 
-    def _get_gitignore_chain(self, directory: Path, walk_root: Path) -> list[pathspec.PathSpec]:
-        """Collect all gitignore specs from walk_root down to directory (inclusive)."""
-        specs: list[pathspec.PathSpec] = []
+    @staticmethod
+    def _gitignored(path: Path, is_dir: bool, chain: list[tuple[Path, pathspec.PathSpec]]) -> bool:
+        """
+        Apply the `.gitignore` files from the walk root down to the entry's directory the way
+        git does: each file's patterns see the path relative to that file's directory, and the
+        last matching pattern (a deeper file overrides a shallower one) decides.
+        """
+        ignored = False
+        for base, spec in chain:
+            rel = path.relative_to(base).as_posix() + ("/" if is_dir else "")
+            include = spec.check_file(rel).include
+            if include is not None:
+                ignored = include
+        return ignored
+
+    def _get_gitignore_chain(
+        self, directory: Path, walk_root: Path
+    ) -> list[tuple[Path, pathspec.PathSpec]]:
+        """Collect (directory, spec) for all gitignore files from walk_root down to directory."""
+        specs: list[tuple[Path, pathspec.PathSpec]] = []
         resolved_root = walk_root.resolve()
         resolved_dir = directory.resolve()
         # Walk from root down to current directory
@@ -203,7 +221,7 @@ class FileResolver:
         while True:
             spec = self._get_gitignore(current)
             if spec is not None:
-                specs.append(spec)
+                specs.append((current, spec))
             if current == resolved_dir:
                 break
             try:
